@@ -144,7 +144,13 @@ def coq_build():
                         env={"VERIF_REPO": REPO})
         if rc != 0:
             return False, "gen_facts failed:\n" + out0
-        rc, out = _run("coq_makefile -f _CoqProject -o Makefile", cwd=COQ, timeout=120)
+        # model and proofs of the whole development are built here; the statement file props/<id>.v of the property under check is
+        # compiled by coq_props.  (A premise of another property's statements that the source no longer satisfies - a regenerated
+        # fact, say - must not fail the check of THIS property.)
+        lines = [ln for ln in open(os.path.join(COQ, "_CoqProject")).read().split("\n") if not ln.strip().startswith("props/")]
+        with open(os.path.join(COQ, "_CoqProject.build"), "w") as f:
+            f.write("\n".join(lines) + "\n")
+        rc, out = _run("coq_makefile -f _CoqProject.build -o Makefile", cwd=COQ, timeout=120)
         if rc != 0:
             return False, out
         rc, out2 = _run("timeout 1500 make -j%d" % NPROC, cwd=COQ, timeout=1600)
